@@ -52,7 +52,9 @@ Definition next_conn_label (hs : list (nat * hold)) (c : nat) (r : conn) : list 
   | CLoopTop => if held hs c HoldLoopTop then [] else [LSetDeadline c]
   | CPeek => [LPeekOk c; LPeekFail c]
   | CGotByte => if held hs c HoldGotByte then [] else [LStore0 c]
-  | CActive => [LReadReq c]
+  | CActive => [LLoadStop c]
+  | CStopSeen => [LLookup c]
+  | CReady => [LReadReq c]
   | CWritten => [LStoreT c]
   | CStoredT => [LCheckStop c]
   | CExiting => [LUnregIdle c]
